@@ -171,6 +171,7 @@ func (s *Scheduler) runStage(stage *scheduler.Stage) error {
 }
 
 func (s *Scheduler) notifyStageChange(stage *scheduler.Stage) {
+	verifNotify(s, stage)
 	if s.onStageChange != nil {
 		s.onStageChange(stage)
 	}
